@@ -334,6 +334,31 @@ def prepare_old(caller, spec, target):
 
 
 def loaded_state(caller, path, scratch):
+    """loaded_state_here in a forked child: the real loaders keep class-level state across loads
+    (IrcUserCreator.u, IrcChannelCreator.name ...: a load aborted by a truncated file poisons the next
+    load in the same process), so every load gets a process of its own, as after a restart"""
+    r, w = os.pipe()
+    pid = os.fork()
+    if pid == 0:
+        try:
+            os.close(r)
+            try:
+                res = loaded_state_here(caller, path, scratch)
+            except BaseException as e:
+                res = ('LOADER-CRASH %s' % type(e).__name__, [])
+            with os.fdopen(w, 'w') as f:
+                json.dump(res, f)
+        finally:
+            os._exit(0)
+    os.close(w)
+    with os.fdopen(r) as f:
+        data = f.read()
+    os.waitpid(pid, 0)
+    st, opened = json.loads(data)
+    return st, opened
+
+
+def loaded_state_here(caller, path, scratch):
     """load a copy of `path` with the real loader; returns (canonical state, [paths opened])"""
     import supybot.ircdb as ircdb, supybot.registry as registry, supybot.dbi as dbi
     if caller == 'raw':
